@@ -82,7 +82,7 @@ func hsNewWorld(t testing.TB, retries int) *hsWorld {
 		base["lighthouse"] = m{"interval": 0}
 		base["logging"] = m{"level": "error"}
 		ctrl, vpn, udpAddr, cfg := newSimpleServerWithUdp(cert.Version2, ca, caKey, name, nets, udp, base)
-		nd := &vNode{Name: name, Ctrl: ctrl, Vpn: vpn, UDP: udpAddr, Cfg: cfg, stop: make(chan struct{})}
+		nd := &vNode{Name: name, Ctrl: ctrl, Vpn: vpn, UDP: udpAddr, Cfg: cfg, stop: make(chan struct{}), kick: make(chan struct{}, 1)}
 		w.Nodes[name] = nd
 		w.byUDP[udpAddr] = nd
 		w.udpName[udpAddr] = name
@@ -112,7 +112,7 @@ func hsNewWorld(t testing.TB, retries int) *hsWorld {
 		base["pki"] = m{"initiating_version": 1}
 		base["listen"] = m{"send_recv_error": "never", "host": hsUDP(5).Addr().String(), "port": 4242}
 		ctrl, vpn, _, cfg := newServer([]cert.Certificate{w.CA}, []cert.Certificate{c1, c2}, keyPEM, base)
-		nd := &vNode{Name: "P", Ctrl: ctrl, Vpn: vpn, UDP: hsUDP(5), Cfg: cfg, stop: make(chan struct{})}
+		nd := &vNode{Name: "P", Ctrl: ctrl, Vpn: vpn, UDP: hsUDP(5), Cfg: cfg, stop: make(chan struct{}), kick: make(chan struct{}, 1)}
 		w.Nodes["P"], w.byUDP[nd.UDP], w.udpName[nd.UDP] = nd, nd, "P"
 	}
 	// outbound firewall: only destination port 5000 is allowed (the e2e default rule allows everything and the
@@ -272,6 +272,30 @@ func (w *hsWorld) deliver(d *vDatagram, to *vNode, via netip.AddrPort) {
 	w.DeliverTo(d, to.UDP, via)
 	ev := map[string]any{"ev": "Deliver", "n": to.Name, "id": w.mid(d), "via": w.udpName[via], "kind": d.H.TypeName()}
 	w.post(to, ev)
+	w.log(ev)
+}
+
+// deliverLate: the datagram is delivered while the node's transmit queue is held, so that the goroutine handling it parks
+// as soon as it has sent more than the queue takes (releasing queued packets); `late` more inside packets for `to` are then
+// handed to the node's tun -- its inside reader really runs in the middle of continueHandshake -- and everything is let go.
+// Logged as one Deliver step that carries the late packets' firewall flags.
+func (w *hsWorld) deliverLate(d *vDatagram, nd *vNode, via netip.AddrPort, to netip.Addr, late int) {
+	nd.Hold()
+	w.DeliverTo(d, nd.UDP, via)
+	flags := []bool{}
+	for k := 0; k < late; k++ {
+		w.sendNo++
+		ok := w.sendNo%5 != 3
+		port := uint16(5000)
+		if !ok {
+			port = 6000
+		}
+		w.TunSend(nd, vUDPPacket(nd.Vpn[0].Addr(), to, 4000, port, []byte(fmt.Sprintf("late-%d", k))))
+		flags = append(flags, ok)
+	}
+	nd.Release()
+	ev := map[string]any{"ev": "Deliver", "n": nd.Name, "id": w.mid(d), "via": w.udpName[via], "kind": d.H.TypeName(), "late": flags}
+	w.post(nd, ev)
 	w.log(ev)
 }
 
@@ -455,6 +479,29 @@ func hsDrive(w *hsWorld, rnd *rand.Rand, steps, tr int, res *vResult) {
 			}
 		}
 		res.Hit("equal-time-prologue")
+	}
+	if (profile == 0 && (tr/4)%2 == 1) || (profile == 2 && (tr/4)%2 == 0) {
+		// the queue is released while the inside reader keeps handing over packets for the same peer
+		take := func(to *vNode, typ header.MessageType, counter uint64) *vDatagram {
+			for k, d := range w.inflight {
+				if d.To == to.UDP && d.H.Type == typ && d.H.MessageCounter == counter {
+					w.inflight = append(w.inflight[:k], w.inflight[k+1:]...)
+					return d
+				}
+			}
+			return nil
+		}
+		nq := 11 + rnd.Intn(8)
+		for k := 0; k <= nq; k++ {
+			w.tunSend(A, addr("10.128.0.2"), fmt.Sprintf("fl-%d", k))
+		}
+		if hs1 := take(B, header.Handshake, 1); hs1 != nil {
+			w.deliver(hs1, B, hs1.From)
+			if hs2 := take(A, header.Handshake, 2); hs2 != nil {
+				w.deliverLate(hs2, A, hs2.From, addr("10.128.0.2"), 1+rnd.Intn(3))
+				res.Hit("flush-interleave-prologue")
+			}
+		}
 	}
 	burstAt := -1
 	if profile == 2 {
